@@ -189,6 +189,15 @@ class Gen:
             self.emit(ind + 1, f"scf.yield {self.rng.choice(pool + ivpool)}, {self.rng.choice(pool + ivpool)} : i32, i32")
             self.emit(ind, "}")
             return [r1, r2]
+        if self.rng.random() < 0.25 and self.inv < self.max_inv:
+            # only the else-arm reconfigures the accelerator; the then-arm leaves it alone
+            self.emit(ind, f"scf.if {c} {{")
+            if self.rng.random() < 0.5:
+                self.emit(ind + 1, f"{self.fresh()} = arith.addi {self.rng.choice(pool)}, {self.rng.choice(pool)} : i32")
+            self.emit(ind, "} else {")
+            self.invocation(ind + 1, pool, ivpool)
+            self.emit(ind, "}")
+            return []
         self.emit(ind, f"scf.if {c} {{")
         self.block(ind + 1, depth + 1, pool, ivpool, self.rng.randint(1, 2))
         if self.rng.random() < 0.6:
